@@ -162,8 +162,27 @@ def is_rounding_pair(a, b):
     return r is not None and r != model_cmp(a, b)
 
 
+def extend_catalogue():
+    """Thorough tier: every scalar construction that is not part of an int/float rounding pair, wrapped in each container kind
+    (element of a tuple / list, dict value, dict key, set element, struct field): equality, hashing and order of containers must
+    follow their elements through every representation."""
+    scal = [(e, v) for e, v in CAT if kind(v) in ("num", "str", "bool", "none")]
+    nums = [v for _, v in scal if kind(v) == "num"]
+    ext = []
+    for e, v in scal:
+        if kind(v) == "num" and any(is_rounding_pair(v, w) for w in nums):
+            continue
+        ext += [(f"({e},)", (v,)), (f"[{e}]", [v]), (f'{{"k": {e}}}', {"k": v}), (f"struct(a = {e})", S(a=v)), (f"(0, [{e}])", (0, [v]))]
+        if not (isinstance(v, float) and math.isnan(v)):
+            ext += [(f"{{{e}: 1}}", {v: 1}), (f"set([{e}])", frozenset([v]))]
+    return ext
+
+
 def run(tier):
     res = vlib.Result(PID, tier, "exploration")
+    if tier == "thorough":
+        global CAT
+        CAT = CAT + [x for x in extend_catalogue() if x[0] not in {e for e, _ in CAT}]
     n = len(CAT)
     lib = "FV = [\n" + "".join(f"    {e},\n" for e, _ in CAT) + "]\n"
     body = ("C = [\n" + "".join(f"    {e},\n" for e, _ in CAT) + "]\n"
